@@ -5,6 +5,7 @@ and of from_rdkit(it) are compared field by field by TLC; configuration is judge
 library's on the other) inside the symmetry domain that TLC evaluates with its own colour refinement.
 """
 import random
+import re
 
 import chy
 import vlib
@@ -60,9 +61,17 @@ def observe(case):
     if allene_or_other_stereo(m) or any(a._stereo is not None and a.atomic_number != 6 for a in m._atoms.values()):
         return {'skip': 'outside-the-claim'}
     dative = any(b._order == 8 for *_, b in m.bonds())
-    ref = Chem.MolFromSmiles(str(m)) if not dative else Chem.MolFromSmiles('C')
+    # RDKit's own reading of the text is the reference on its side (never a text the library wrote: that would bake the library's reading in)
+    ref = Chem.MolFromSmiles(case['smi']) if not dative else Chem.MolFromSmiles('C')
     if ref is None:
         return {'skip': 'rdkit-rejects'}
+    # configuration the library's stereo model does not cover (and the claim excludes): stereocentres that are not carbon, and centres
+    # that are stereogenic only through hydrogen isotopes (fewer than three non-hydrogen neighbours)
+    if re.search(r'\[\d*(?!C[@H+\-\]:])[A-Za-z]{1,2}@', case['smi']) or \
+            any(a.GetChiralTag() != Chem.ChiralType.CHI_UNSPECIFIED and (a.GetAtomicNum() != 6 or sum(1 for x in a.GetNeighbors() if x.GetAtomicNum() != 1) < 3) for a in ref.GetAtoms()):
+        return {'skip': 'outside-the-claim'}
+    if not dative and any(a.GetNumRadicalElectrons() > 1 for a in ref.GetAtoms()):
+        return {'skip': 'outside-the-claim'}     # carbenes: the library has one radical flag per atom and reads [CH2] as methane
     if case.get('coords'):
         for a in m._atoms.values():
             a.x, a.y = round(rnd.uniform(-9, 9), 4), round(rnd.uniform(-9, 9), 4)
@@ -149,7 +158,8 @@ def run(ck):
          'c1ccc2ccccc2c1', 'C[C@@](F)(Cl)Br', 'F[C@H](Cl)[C@@H](F)Cl', '[13CH3][C@H]([2H])O', 'C[N+](=O)[O-]', 'C=[N+]=[N-]', '[O-][n+]1ccccc1', 'C[S@](=O)CC', 'OP(O)(O)=O',
          'C1=CC=CC=CC=C1', 'c1ccc2[nH]ccc2c1', 'C/C=C(/F)Cl', 'C/C(F)=C(/Cl)Br', 'C1CC/C=C/CCC1', 'C[C@H]1CC[C@@H](C)CC1', 'N[C@H](C(=O)O)[C@@H](C)O', '[CH3]', 'C[CH]C', '[O][O]',
          '[2H][C@](F)(Cl)C', 'F[C@]([2H])(Cl)C', 'F[C@](Cl)([2H])C', 'F[C@](Cl)(C)[2H]', '[2H][C@@](F)(Cl)C', 'C[C@@]([3H])(N)C(=O)O', '[2H][C@]1(C)CCCO1', 'N[C@@]([2H])(C)C(O)=O',
-         'C[C@@](F)(Cl)Br', 'CC[C@](C)(N)C(=O)O', 'CC1(C)[C@@H]2CC[C@@]1(C)C(=O)C2']
+         'C[C@@](F)(Cl)Br', 'CC[C@](C)(N)C(=O)O', 'CC1(C)[C@@H]2CC[C@@]1(C)C(=O)C2',
+         'C1CCC/C=C\\CC1', 'C1CCC/C=C/CC1', 'C1=C/CCCCCC/1', 'C1=C\\CCCCCC/1', 'C1=C\\CC/C=C\\CC/1', 'OC1CC/C=C/CCC1', 'C1CCCC/C=C/CC1', 'C1CCCC/C=C\\CC1', 'C1CC/C=C\\CC1']
     cases = []
     for k, s in enumerate(sel):
         cases.append({'key': f'{s}|{"kekule" if k % 2 else "thiele"}|{k % 3}', 'smi': s, 'form': 'kekule' if k % 2 else 'thiele', 'renumber': k % 3 == 1, 'coords': k % 3 == 2,
